@@ -20,7 +20,10 @@ ALL256 = bytes(range(1, 256)) + b"\x00tail"
 def contents(quick):
     c = [("empty", b""), ("plain", b"plain text 123"), ("soh", b"ab\x01cd"), ("eq", b"a=b=c"),
          ("lookalike", b"x\x0110=123\x01y"), ("soh_first", b"\x01x"), ("nul", b"a\x00b"), ("all256", ALL256),
-         ("len1", b"Z"), ("len2046", b"q" * 2046), ("len2047", b"r" * 2047)]
+         ("len1", b"Z"), ("len2046", b"q" * 2046), ("len2047", b"r" * 2047),
+         # SOH / '=' at the very end or alone (a tolerant "length counts the separator" reading cuts these)
+         ("soh_last", b"abc\x01"), ("soh_only", b"\x01"), ("field_lookalike_last", b"58=x\x01"), ("eq_last", b"abc="),
+         ("soh_twice_last", b"a\x01\x01")]
     return c
 
 
